@@ -262,10 +262,16 @@ def sum_(sequence: ArrayT, key: object = None) -> Union[float, int, Decimal]:
     If _key_ is given, it is assumed that sequence items are mapping-like,
     and the values at _item[key]_ will be summed instead.
     """
-    if key is not None and not is_undefined(key):
-        rv = sum(decimal_arg(_getitem(elem, key, 0), 0) for elem in sequence)
-    else:
-        rv = sum(decimal_arg(elem, 0) for elem in sequence)
+    try:
+        if key is not None and not is_undefined(key):
+            rv = sum(decimal_arg(_getitem(elem, key, 0), 0) for elem in sequence)
+        else:
+            rv = sum(decimal_arg(elem, 0) for elem in sequence)
+    except ArithmeticError as err:
+        # Infinity + -Infinity, for example.
+        raise FilterArgumentError(
+            "sum: can't add non-finite numbers", token=None
+        ) from err
     if isinstance(rv, Decimal):
         return float(rv)
     return rv
